@@ -1221,7 +1221,6 @@ func (s *Service) queryEventExpire(v interface{}) {
 	verifPoint("qexpire.enter", qe.r.rname)
 	qe.sub.Drain()
 	verifPoint("qexpire.drained", qe.r.rname)
-	s.runWith(qe.r.Group(), func() {
-		qe.cb(nil)
-	})
+	// Tell the listener goroutine to make the final nil call and end.
+	close(qe.done)
 }
